@@ -181,3 +181,243 @@ func familyJob(j Job, r *JobResult) {
 }
 
 func init() { jobKinds["family"] = familyJob }
+
+// ---- churn families: large comparator trees under NON-MONOTONE histories ------------------------
+//
+// The fixpoint searches of C01/C02/C07 reach every shape up to 12-24 keys.  This job takes the
+// containers to u keys (48/96) along a stated family of histories that are not plain fills:
+//
+//	fill in order F, then delete in order D down to empty;                       F in 4 orders, D in 5
+//	fill in order F, delete half in order D, re-insert the deleted keys in order R,
+//	  then delete everything in order D;                                          R in {ascending, descending}
+//
+// Every single step runs the transition oracle (returned values, Size/Keys/Values against the
+// reference, comparator-call bounds) and the complete state oracle (shape invariants, Get and
+// navigation for all 2n+1 probes, iteration both ways).  Exhaustive over the stated family only.
+func churnJob(j Job, r *JobResult) {
+	u := j.p("u", 48)
+	jj := j
+	jj.P = map[string]int{"u": u, "n": u, "vu": u, "m": j.p("m", 3)}
+	sys := kvSysFromJob(jj)
+	if ks, ok := sys.(*KVSys[int, Val]); ok && ks.Kind == "treeset" {
+		ks.Fresh = func(i int) Val { return 0 }
+	}
+	two := false
+	for _, o := range sys.New().Ops() {
+		if o.N == "put" && len(o.A) == 2 {
+			two = true
+		}
+	}
+	put := func(k int) Op {
+		if two {
+			return op("put", k, (k*7+3)%u)
+		}
+		return op("put", k)
+	}
+	del := func(k int) Op { return op("del", k) }
+	r.St = Stats{Nested: map[string]int{}, PerSize: map[int]int{}, OpsHistogram: map[string]int{}, Exhaustive: true}
+	seen := map[[16]byte]bool{}
+	run := func(path []Op, what string) bool {
+		inflightSeq.Add(1)
+		in := sys.New()
+		for i, o := range path {
+			desc := in.Describe(o)
+			v := safeStep(in, o, sys.Props())
+			r.St.Transitions++
+			r.St.OpsHistogram[o.N]++
+			if v == nil {
+				var k string
+				if kv := safeCheck(func() *Viol { k = in.Key(); return nil }, nil, "fingerprint"); kv == nil {
+					if h := hash16(k); !seen[h] {
+						seen[h] = true
+						r.St.States++
+						r.St.PerSize[in.Size()]++
+						v = safeCheck(in.CheckState, sys.Props(), "state observers")
+					}
+				}
+			}
+			if v == nil && j.Prop == "C17" {
+				v = outGuardCheck("churn history")
+			}
+			if v != nil {
+				if !v.Has(j.Prop) {
+					if v.Class == "panic" {
+						return false // a panic in the middle of a history: reported by the property that owns it
+					}
+					continue
+				}
+				v.Msg = fmt.Sprintf("%s, step %d %s: %s", what, i, desc, v.Msg)
+				r.Found = &Found{V: v, Path: path[:i+1], Calls: describePath(sys, path[:i+1], nil)}
+				r.St.Exhaustive = false
+				return true
+			}
+		}
+		r.St.Nested["churn_histories"]++
+		return false
+	}
+	if j.Replay != nil {
+		run(j.Replay.Path, "replayed history")
+		return
+	}
+	fills := fillOrders(u)
+	dels := append(fillOrders(u), fillOrder{"every second key first, then the rest", func() []int {
+		var o []int
+		for i := 0; i < u; i += 2 {
+			o = append(o, i)
+		}
+		for i := 1; i < u; i += 2 {
+			o = append(o, i)
+		}
+		return o
+	}()})
+	for _, f := range fills {
+		for _, d := range dels {
+			var p []Op
+			for _, k := range f.keys {
+				p = append(p, put(k))
+			}
+			half := append([]Op{}, p...)
+			for _, k := range d.keys {
+				p = append(p, del(k))
+			}
+			if run(p, fmt.Sprintf("%d keys inserted %s, deleted %s", u, f.name, d.name)) {
+				return
+			}
+			for _, re := range fills[:2] {
+				q := append([]Op{}, half...)
+				gone := map[int]bool{}
+				for _, k := range d.keys[:u/2] {
+					q = append(q, del(k))
+					gone[k] = true
+				}
+				for _, k := range re.keys {
+					if gone[k] {
+						q = append(q, put(k))
+					}
+				}
+				for _, k := range d.keys {
+					q = append(q, del(k))
+				}
+				if run(q, fmt.Sprintf("%d keys inserted %s, half deleted %s, re-inserted %s, all deleted %s", u, f.name, d.name, re.name, d.name)) {
+					return
+				}
+			}
+		}
+	}
+	r.St.Samples = []any{map[string]any{"system": sys.Name(), "family": "fill in {ascending, descending, zig-zag, inside-out} x delete in those four or every-second-first; and with half deleted, re-inserted ascending / descending, all deleted", "keys": u}}
+}
+
+func init() { jobKinds["churn"] = churnJob }
+
+// heapChurnJob: heaps of u DISTINCT priorities (48/96) along a stated family of histories: fill in one
+// of four orders by single pushes or by bulk pushes of three, drain completely; and: fill, pop half,
+// push the popped elements back (ascending / descending), drain.  Every step under the heap oracle
+// (Pop/Peek minimal and exact, Values a permutation headed by Peek), every distinct state drained.
+func heapChurnJob(j Job, r *JobResult) {
+	u := j.p("u", 48)
+	c, cm := j.s("c", "binaryheap"), j.s("cmp", "min")
+	sys := scalarHeapSys[int](c, cm, u, intRange(0, u-1), -99, 0)
+	sys.Bulk, sys.JSONs = nil, nil
+	r.St = Stats{Nested: map[string]int{}, PerSize: map[int]int{}, OpsHistogram: map[string]int{}, Exhaustive: true}
+	bulkOK := sys.New().(*heapBox[int]).a.bulk
+	run := func(path []Op, what string) bool {
+		inflightSeq.Add(1)
+		in := sys.New()
+		for i, o := range path {
+			desc := in.Describe(o)
+			v := safeStep(in, o, sys.Props())
+			r.St.Transitions++
+			r.St.OpsHistogram[o.N]++
+			if v == nil && j.Prop == "C17" {
+				v = outGuardCheck("heap churn history")
+			}
+			if v != nil {
+				if !v.Has(j.Prop) {
+					if v.Class == "panic" {
+						return false
+					}
+					continue
+				}
+				v.Msg = fmt.Sprintf("%s, step %d %s: %s", what, i, desc, v.Msg)
+				r.Found = &Found{V: v, Path: path[:i+1], Calls: describePath(sys, path[:i+1], nil)}
+				r.St.Exhaustive = false
+				return true
+			}
+		}
+		r.St.States++
+		r.St.Nested["churn_histories"]++
+		return false
+	}
+	if j.Replay != nil {
+		// the bulk tuples of the recorded history are re-created below before it is replayed
+	}
+	var hist [][]Op
+	var names []string
+	for _, f := range fillOrders(u) {
+		modes := []string{"single pushes"}
+		if bulkOK {
+			modes = append(modes, "bulk pushes of three")
+		}
+		for _, mode := range modes {
+			var fill []Op
+			if mode == "single pushes" {
+				for _, k := range f.keys {
+					fill = append(fill, op("push", k))
+				}
+			} else {
+				for i := 0; i < len(f.keys); i += 3 {
+					t := f.keys[i:min(i+3, len(f.keys))]
+					if len(t) == 1 {
+						fill = append(fill, op("push", t[0]))
+						continue
+					}
+					sys.Bulk = append(sys.Bulk, append([]int{}, t...))
+					fill = append(fill, op("bulk", len(sys.Bulk)-1))
+				}
+			}
+			p := append([]Op{}, fill...)
+			for i := 0; i < u; i++ {
+				p = append(p, op("peek"), op("pop"))
+			}
+			hist = append(hist, p)
+			names = append(names, fmt.Sprintf("%d distinct priorities pushed %s by %s, then drained", u, f.name, mode))
+			for _, back := range []string{"ascending", "descending"} {
+				q := append([]Op{}, fill...)
+				for i := 0; i < u/2; i++ {
+					q = append(q, op("pop"))
+				}
+				// under a min-comparator the popped ones are 0..u/2-1, under a max-comparator the upper half
+				lo, hi := 0, u/2-1
+				if cm == "max" {
+					lo, hi = u-u/2, u-1
+				}
+				ks := intRange(lo, hi)
+				if back == "descending" {
+					for l, rr := 0, len(ks)-1; l < rr; l, rr = l+1, rr-1 {
+						ks[l], ks[rr] = ks[rr], ks[l]
+					}
+				}
+				for _, k := range ks {
+					q = append(q, op("push", k))
+				}
+				for i := 0; i < u; i++ {
+					q = append(q, op("pop"))
+				}
+				hist = append(hist, q)
+				names = append(names, fmt.Sprintf("%d distinct priorities pushed %s by %s, half popped, pushed back %s, drained", u, f.name, mode, back))
+			}
+		}
+	}
+	if j.Replay != nil {
+		run(j.Replay.Path, "replayed history")
+		return
+	}
+	for i, p := range hist {
+		if run(p, names[i]) {
+			return
+		}
+	}
+	r.St.Samples = []any{map[string]any{"system": sys.Name(), "family": "fill in {ascending, descending, zig-zag, inside-out} by single pushes / bulk pushes of three, drain; and half popped, pushed back ascending / descending, drained", "priorities": u}}
+}
+
+func init() { jobKinds["heapchurn"] = heapChurnJob }
